@@ -20,6 +20,8 @@ from pyvc import ops
 from pyvc.engine import EXC, exc_class
 from pyvc.values import Ext, NoOp, PyRaise, Unsupported, VBound, VClass, VDict, VList, VObj, VSlice, stub
 
+from .api_common import itertools_module
+
 MOD = "pymoca.backends.casadi.generator"
 MX_CLASS = VClass("MX")
 DM_CLASS = VClass("DM")
@@ -283,7 +285,7 @@ class Opaque(Ext):
 
 def install(eng):
     eng.ext_modules.update({"casadi": CasadiStub(), "numpy": NumpyStub(), "collections": CollectionsStub(),
-                            "logging": Opaque("logging"), "typing": Opaque("typing"), "itertools": Opaque("itertools")})
+                            "logging": Opaque("logging"), "typing": Opaque("typing"), "itertools": itertools_module()})
     eng.call_contracts.clear()
     eng.loop_specs.clear()
     cnt = [0]
@@ -628,11 +630,55 @@ def h_loop_index(eng):
         eng.prove("loop.index.zero_based", z3.ForAll([x], z3.Implies(member(x), arr.g(x) == x - 1)))
 
 
+def h_get_integer_of_a_subscripted_parameter(eng):
+    """Generator.get_integer (what evaluates subscripts, slice bounds and declared dimensions) on a reference INTO an Integer
+    parameter array, idx[k] or d[r, c]: it may refuse such a reference (today it does), but if it answers, every subscript lies in
+    1..size of its dimension and the answer is the element at those 1-based positions -- a subscript that is 0, negative or too
+    large is an error, never another element."""
+    install(eng)
+    from .ast_common import AstFactory
+    from .gen_common import new_generator
+    gm = eng.load_module(MOD)
+    eng.call_contracts.pop("Generator.get_integer", None)
+    A = AstFactory(eng)
+    two_d = bool(eng.choice(2))
+    literal = [[11, 12, 13], [21, 22, 23]] if two_d else [31, 32, 33]
+    subs = [[-1, 0, 1, 2, 3][eng.choice(5)], [0, 1, 3, 4][eng.choice(4)]] if two_d else [[-2, -1, 0, 1, 2, 3, 4][eng.choice(7)]]
+    eng.input("parameter_array", literal)
+    eng.input("subscripts", subs)
+
+    def arr(v):
+        return A.new("Array", values=VList([arr(x) for x in v])) if isinstance(v, list) else A.prim(v)
+    sym = A.new("Symbol", name="idx", type=A.ref("Integer"), value=arr(literal), prefixes=VList(["parameter"]))
+    klass = A.new("Class", name="M", type="model")
+    ops.setitem(eng, klass.fields["symbols"], "idx", sym)
+    g = new_generator(eng, gm, {"entered_classes": VList([klass]), "for_loops": VList([])})
+    tree = A.ref("idx")
+    tree.fields["indices"] = VList([VList([A.prim(k_) for k_ in subs])])
+    f = eng.find_function(MOD, "Generator.get_integer")
+    try:
+        r = eng.call(VBound(f, g), [tree], {})
+    except PyRaise:
+        eng.cover("getint.refuses")
+        eng.prove("getint.subscripted_parameter_is_refused_or_answered_in_range", True)
+        return
+    eng.cover("getint.answers")
+    dims = [2, 3] if two_d else [3]
+    in_range = all(1 <= k_ <= n_ for k_, n_ in zip(subs, dims))
+    want = None
+    if in_range:
+        want = literal
+        for k_ in subs:
+            want = want[k_ - 1]
+    eng.prove("getint.subscripted_parameter_is_refused_or_answered_in_range", z3.BoolVal(bool(in_range and r == want)), answered=repr(r), element=repr(want))
+
+
 HARNESSES = [("Generator.get_indexed_symbol/constant", h_constant_subscripts),
              ("Generator.get_indexed_symbol/scalar", h_scalar_subscript),
              ("Generator.get_indexed_symbol/too-many", h_too_many),
-             ("Generator.get_indexed_symbol+ForLoop.register_indexed_symbol/loop", h_loop_index)]
-EXPECTED_COVER = {"const.raises", "const.returns", "scalar.raises", "toomany.raises", "loop.raises", "loop.returns"}
+             ("Generator.get_indexed_symbol+ForLoop.register_indexed_symbol/loop", h_loop_index),
+             ("Generator.get_integer on a reference into an Integer parameter array", h_get_integer_of_a_subscripted_parameter)]
+EXPECTED_COVER = {"const.raises", "const.returns", "scalar.raises", "toomany.raises", "loop.raises", "loop.returns", "getint.refuses"}
 BOUNDED = True
 LEVEL = "proof"
 TRUSTED = ["pyvc VC generator", "z3 5.1.0 / cvc5 1.0.3",
